@@ -255,3 +255,25 @@ func P(fn *ssa.Function, i int) string {
 	}
 	return "param:" + fn.Params[i].Name()
 }
+
+// ThroughClone looks through (*http.Request).Clone / WithContext: the copy
+// carries the same method, URL and header values as its receiver.
+func ThroughClone(v ssa.Value) ssa.Value {
+	for k := 0; k < 8; k++ {
+		rs := Roots(v)
+		if len(rs) != 1 {
+			return v
+		}
+		call, ok := rs[0].(*ssa.Call)
+		if !ok {
+			return v
+		}
+		switch CalleeName(call.Common()) {
+		case "(*net/http.Request).Clone", "(*net/http.Request).WithContext":
+			v = call.Call.Args[0]
+		default:
+			return v
+		}
+	}
+	return v
+}
